@@ -22,7 +22,9 @@ SNIPPETS = [
     ("fullA2", "See Foo v. Bar, 1 U. S. 10, 12 (1990) (en banc).", "FullCaseCitation", 0),
     ("fullB", "Smith v. Jones, 1 U.S. 50 (1991).", "FullCaseCitation", 0),
     ("fullC", "Bar v. Baker, 2 F.2d 20 (1992).", "FullCaseCitation", 0),
+    ("fullC3", "Kim v. Lee, 2 F.3d 20 (1995).", "FullCaseCitation", 0),  # same volume/page as fullC, sibling series
     ("fullP", "Roe v. Wade, 410 U.S. ___ (1973).", "FullCaseCitation", 0),
+    ("fullQ", "Baz v. Qux, 410 U.S. ___ (1974).", "FullCaseCitation", 0),  # second placeholder case, same reporter+volume
     ("law", "Mass. Gen. Laws ch. 1, § 2.", "FullLawCitation", 0),
     ("jour", "1 Minn. L. Rev. 1.", "FullJournalCitation", 0),
     ("jourP", "1 Minn. L. Rev. ___.", "FullJournalCitation", 0),
@@ -30,6 +32,8 @@ SNIPPETS = [
     ("shortAmb", "See 1 U.S. at 12.", "ShortCaseCitation", 0),
     ("shortAmbJones", "Jones, 1 U.S. at 52.", "ShortCaseCitation", 0),
     ("shortForeign", "See 3 F.3d at 9.", "ShortCaseCitation", 0),
+    ("shortP", "See 410 U.S., at 5.", "ShortCaseCitation", 0),  # matches placeholder-page cases only
+    ("shortPQux", "Qux, 410 U.S. at 5.", "ShortCaseCitation", 0),
     ("supraFoo", "Foo, supra, at 11.", "SupraCitation", 0),
     ("supraBar", "Bar, supra, at 11.", "SupraCitation", 0),
     ("supraNone", "Nobody, supra, at 11.", "SupraCitation", 0),
@@ -43,8 +47,9 @@ SNIPPETS = [
     ("unknown", "§ 5", "UnknownCitation", 0),
 ]
 NAMES = [s[0] for s in SNIPPETS]
-CORE12 = ["fullA", "fullA2", "fullB", "fullC", "fullP", "shortAmb", "shortAmbJones", "supraBar", "refJones", "idNoPin", "idValid", "unknown"]
-CLASS = {"fullA": "A", "fullA2": "A", "fullB": "B", "fullC": "C", "fullP": "P", "law": "law", "jour": "jour", "jourP": "jourP"}
+CORE12 = ["fullA", "fullA2", "fullB", "fullC", "fullC3", "fullP", "fullQ", "shortAmb", "shortAmbJones", "shortP", "shortPQux", "supraBar", "refJones", "idNoPin", "idValid", "unknown"]
+CLASS = {"fullA": "A", "fullA2": "A", "fullB": "B", "fullC": "C", "fullC3": "C3", "fullP": "P", "fullQ": "Q", "law": "law", "jour": "jour", "jourP": "jourP"}
+PLACEHOLDER_CLASSES = ("P", "Q")  # every instance is its own resource: the canonical state counts them (capped at 2)
 K = {}
 
 
@@ -57,8 +62,9 @@ def build_alphabet():
             raise RuntimeError(f"alphabet symbol {name}: snippet {text!r} yields no {cls}")
         K[name] = cs[idx]
     # sanity of the alphabet's intent (harness self-check, not a verdict)
-    assert K["fullA"] == K["fullA2"] and K["fullA"] != K["fullB"]
-    assert K["fullP"].groups["page"] is None and K["jourP"].groups["page"] is None
+    assert norm_reporter(K["fullA"]) == norm_reporter(K["fullA2"]) == "U.S." and norm_reporter(K["fullC3"]) == "F.3d"
+    assert K["fullP"].groups["page"] is None and K["fullQ"].groups["page"] is None and K["jourP"].groups["page"] is None
+    assert K["shortPQux"].metadata.antecedent_guess == "Qux" and norm_reporter(K["shortP"]) == norm_reporter(K["fullP"])
     assert K["refJones"].metadata.defendant == "Jones"
     return K
 
@@ -71,14 +77,21 @@ def instantiate(seq):
 # oracles (operate on real citation objects, so they also apply to extracted lists)
 
 
+def norm_reporter(c):
+    """Normalised reporter = the guessed edition's own name (not its reporter family), else the written
+    string. Restated here so that the oracle does not inherit a defect of corrected_reporter()."""
+    g = c.edition_guess
+    return g.short_name if g is not None else c.groups.get("reporter")
+
+
 def same_document(a, b):
     """Statement of C06: equal = same normalised volume, reporter and page, and not a placeholder."""
     if isinstance(a, M.FullCaseCitation) and isinstance(b, M.FullCaseCitation):
         if a.groups.get("page") is None or b.groups.get("page") is None:
             return a is b
-        return (a.groups.get("volume"), a.corrected_reporter(), a.groups.get("page")) == (
+        return (a.groups.get("volume"), norm_reporter(a), a.groups.get("page")) == (
             b.groups.get("volume"),
-            b.corrected_reporter(),
+            norm_reporter(b),
             b.groups.get("page"),
         )
     if type(a) is type(b):
@@ -159,7 +172,7 @@ def allowed_targets(objs, i):
     prior = [o for o in objs[:i] if isinstance(o, M.FullCitation)]
     cases = [o for o in prior if isinstance(o, M.FullCaseCitation)]
     if isinstance(c, M.ShortCaseCitation):
-        cands = [f for f in cases if f.corrected_reporter() == c.corrected_reporter() and f.groups.get("volume") == c.groups.get("volume")]
+        cands = [f for f in cases if norm_reporter(f) == norm_reporter(c) and f.groups.get("volume") == c.groups.get("volume")]
         cl = _classes(cands)
         if len(cl) == 1:
             return cl
@@ -289,13 +302,13 @@ def step_outcome(hist, ev):
             first = lst[0]
             i = [k for k, o in enumerate(objs) if o is first][0]
             cls = CLASS.get(seq[i], "?" + seq[i])
-            return ("P",) if cls == "P" else (cls,)
+            return (cls,)
     return None
 
 
 def canon(hist):
     fulls = collections.Counter(CLASS[n] for n in hist if n in CLASS)
-    key = tuple(sorted((k, min(v, 2) if k == "P" else 1) for k, v in fulls.items()))
+    key = tuple(sorted((k, min(v, 2) if k in PLACEHOLDER_CLASSES else 1) for k, v in fulls.items()))
     last = step_outcome(hist[:-1], hist[-1]) if hist else None
     return (key, last)
 
